@@ -37,21 +37,8 @@ META = {
 
 # Real discrepancies between ripgrep and the property as stated, reported to the maintainer of the
 # verification; a violation whose signature matches is printed as KNOWN-FINDING instead of VIOLATION.
-PENDING_FINDINGS = [
-    {"match": {"clause": "bom_overrides_label", "bom": "u8",
-               "encoding": ["utf-16le", "utf-16be", "latin1", "shift_jis"]},
-     "what": "a UTF-8 byte-order mark does not override an explicit --encoding label: the mark is removed but the "
-             "rest is decoded with the label's encoding (encoding_rs_io: bom_override does not apply under utf8_passthru)"},
-    {"match": {"malformed": True, "missing": [1, 2]},
-     "what": "malformed input whose last replacement is produced by the decoder's end-of-input flush (truncated tail, "
-             "or unpaired lead surrogate + BMP unit at the end): the last 1-2 bytes of the transcoding are lost when "
-             "fewer than 4 bytes are free in the caller's buffer at that moment (encoding_rs_io: the tiny-buffer path "
-             "is not drained once the source is exhausted); results depend on buffer size"},
-    {"match": {"eof_flush": True, "missing": 3, "effective": "sj"},
-     "what": "shift_jis input ending with a lead byte: no U+FFFD is produced for the truncated tail (encoding_rs "
-             "Shift_JIS decoder forgets the pending lead byte on an empty non-final call, which encoding_rs_io makes "
-             "at end of input)"},
-]
+# findings are recorded in /verif/known_findings.jsonl (status known / fixed); nothing is pending here
+PENDING_FINDINGS = []
 
 # ---------------------------------------------------------------------------------------------
 # variants of one library-level replay
